@@ -93,7 +93,10 @@ def c02(res, tier, deadline):
           "n=1-4,k=1,d=2,shapes=allRN;"
           "n=1-3,k=3,d=2,shapes=allRN;n=1-2,k=4,d=1,shapes=allRN;"
           "n=1-3,k=2,d=2,shapes=PP|SR|RC|VV|RV|VR|WV|XX;n=1-3,k=1,d=2,shapes=P|S|C|NP|V|W|X|VN;"
-          "n=1-3,k=3,d=1,shapes=PNV|RNV|VNR|VRP" % n)
+          "n=1-3,k=3,d=1,shapes=PNV|RNV|VNR|VRP;"
+          # classes registered by several records, each naming part of the bases
+          "n=1-4,k=1,d=2,shapes=R|NR,pres=split|direct,rev=0|1;"
+          "n=1-4,k=2,d=2,shapes=RR|RNR,pres=split|direct,rev=0|1" % n)
     if tier != "quick":
         sp += ";n=6,k=1,d=3,shapes=R;n=1-4,k=3,d=2,shapes=RRR|RNRNR;n=1-3,k=4,d=2,shapes=RRRR"
     for tag in ("rel", "dbg", "thr", "map"):
@@ -342,10 +345,13 @@ def c13(res, tier, deadline):
         "the simulated layout (union of 16-bit arrays with the pointer array, then dtbls) is the one the emitted struct has"]
     if tier == "quick":
         sp = ("n=1-4,set=UUB,d=1,pres=full|direct;n=1-4,set=UBT,d=1;n=1-5,set=U,d=1;"
-              "n=1-3,set=BB,d=1;n=5,set=UB,d=1;n=1-4,set=UUB,d=0")
+              "n=1-3,set=BB,d=1;n=5,set=UB,d=1;n=1-4,set=UUB,d=0;"
+              # several definitions per method: dispatch tables with repeated cells
+              "n=1-4,set=B,d=2;n=1-3,set=B,d=3;n=1-3,set=UB,d=2;n=1-3,set=T,d=2")
     else:
         sp = ("n=1-5,set=UUB,d=1,pres=full|direct;n=1-4,set=UBT,d=1,pres=full|direct;"
-              "n=1-6,set=U,d=1;n=1-4,set=BB,d=1;n=1-3,set=UBQ,d=1;n=1-5,set=UUB,d=0")
+              "n=1-6,set=U,d=1;n=1-4,set=BB,d=1;n=1-3,set=UBQ,d=1;n=1-5,set=UUB,d=0;"
+              "n=1-5,set=B,d=2;n=1-4,set=B,d=3;n=1-4,set=UB,d=2;n=1-4,set=T,d=2;n=1-3,set=BT,d=2;n=1-3,set=Q,d=2")
     runs = [Run("rel", "encode", sp), Run("rel", "encode", "n=1-4,set=UUB,d=1,pres=full|direct;n=1-3,set=UBT,d=1", variant="asan"),
             Run("dbg", "encode", "n=1-4,set=UUB,d=1", variant="assert"),
             Run("rel", "encode", "n=1-4,set=UUB,d=1,pres=split;n=1-4,set=UBT,d=1,pres=split;n=5,set=UB,d=1,pres=split",
